@@ -18,23 +18,11 @@ set_option linter.unusedSimpArgs false
 namespace CnvVerif.Src
 open CnvVerif CnvVerif.Stats CnvVerif.Generated
 
-/-! ### percentile levels -/
-
-theorem pi_lo_level (alpha : Rat) : 100 * alpha / 2 = src_pi_pct_lo alpha := by
-  unfold src_pi_pct_lo; first | rfl | ring
-
-theorem pi_hi_level (alpha : Rat) : 100 * (1 - alpha / 2) = src_pi_pct_hi alpha := by
-  unfold src_pi_pct_hi; first | rfl | ring
-
 theorem ci_lo_level (alpha : Rat) : 100 * (alpha / 2) = src_ci_pct_lo alpha := by
   unfold src_ci_pct_lo; first | rfl | ring
 
 theorem ci_hi_level (alpha : Rat) : 100 * (1 - alpha / 2) = src_ci_pct_hi alpha := by
   unfold src_ci_pct_hi; first | rfl | ring
-
-theorem piFunc_is_source (l : List Rat) (alpha : Rat) :
-    piFunc l alpha = (percentile l (src_pi_pct_lo alpha), percentile l (src_pi_pct_hi alpha)) := by
-  rw [← pi_lo_level, ← pi_hi_level]; rfl
 
 theorem ciBoot_is_source (vals wts : List Rat) (alpha : Rat) (boot : List BootRow) :
     ciBoot vals wts alpha boot =
@@ -42,8 +30,6 @@ theorem ciBoot_is_source (vals wts : List Rat) (alpha : Rat) (boot : List BootRo
       else (percentile (boot.map (replicateMean vals wts)) (src_ci_pct_lo alpha),
             percentile (boot.map (replicateMean vals wts)) (src_ci_pct_hi alpha)) := by
   rw [← ci_lo_level, ← ci_hi_level]; rfl
-
-/-! ### number of bootstrap replicates -/
 
 /-- Python's `int(e)` rendering applied to a value that is already an integer -/
 theorem intTrunc_intCast' (z : Int) :
@@ -69,41 +55,5 @@ theorem bootCount_is_source (b : Nat) (alpha : Rat) (h0 : 0 < alpha) :
   unfold bootCount src_ci_bootstraps
   simp only [intTrunc_intCast']
   split_ifs <;> first | rfl | exact hcast | (exfalso; linarith)
-
-/-! ### z-test probability of one bin -/
-
-/-- `z_prob` before the adjustment.  `tail` maps `z²` to the two-sided tail, i.e. `tail (z·z) = 2·cdf(−|z|)`;
-    `sqrt` need only be a square root at the one argument the code hands it.  A weight of exactly 1 is
-    the division by zero the model treats separately (`z = ±∞`, `p = 0`). -/
-theorem pRaw_is_source (tail cdf sqrt : Rat → Rat) (resid w : Rat)
-    (htail : ∀ z : Rat, tail (z * z) = 2 * cdf (-(if z < 0 then -z else z)))
-    (hsq : sqrt (1 - w) * sqrt (1 - w) = 1 - w) (hw : w ≠ 1) :
-    pRaw tail resid w = src_z_prob cdf sqrt resid w := by
-  -- the source expression, up to the order of its factors (`2.0 * cdf(..)`, `cdf(..) * 2`, ...)
-  have key : src_z_prob cdf sqrt resid w =
-      2 * cdf (-(if (if resid ≠ 0 then resid / sqrt (1 - w) else 0) < 0
-                 then -(if resid ≠ 0 then resid / sqrt (1 - w) else 0)
-                 else (if resid ≠ 0 then resid / sqrt (1 - w) else 0))) := by
-    unfold src_z_prob; first | rfl | ring
-  rw [key]
-  unfold pRaw
-  by_cases hr : resid = 0
-  · subst hr
-    have := htail 0
-    simp at this
-    simp [this]
-  · have hz : resid / sqrt (1 - w) * (resid / sqrt (1 - w)) = resid * resid / (1 - w) := by
-      rw [div_mul_div_comm, hsq]
-    have := htail (resid / sqrt (1 - w))
-    rw [hz] at this
-    simp [hr, hw, this]
-
-/-! ### mean squared error -/
-
-theorem mseBody_is_source (a : List Rat) : mseBody a = src_mean_squared_error a := by
-  unfold mseBody meanSq meanR src_mean_squared_error
-  have : (fun x : Rat => x * x) = src_mean_squared_error_elem := by
-    funext x; unfold src_mean_squared_error_elem; first | rfl | ring
-  rw [this, List.length_map]
 
 end CnvVerif.Src
